@@ -128,8 +128,8 @@ def check_interleave(case):
 
 
 @st.composite
-def rngfree_case(draw):
-    name = draw(st.sampled_from(RNG_FREE_ALGOS))
+def rngfree_case(draw, name=None):
+    name = name or draw(st.sampled_from(RNG_FREE_ALGOS))
     d = draw(st.integers(1, 2))
     dom = draw(gen.domains(max_d=d, min_d=d))
     if d == 1:
@@ -153,8 +153,13 @@ def make_machine(col, sub):
             self.pts = {"A": [], "B": []}
             self.dead = None
 
-        @initialize(A=rngfree_case(), B=rngfree_case())
-        def init(self, A, B):
+        @initialize(data=st.data())
+        def init(self, data):
+            # shared state usually lives in a class or module: half of the pairs are two instances of the
+            # same algorithm class (with independently drawn parameters, partitions and domains)
+            A = data.draw(rngfree_case())
+            same = data.draw(st.integers(0, 9)) < 6
+            B = data.draw(rngfree_case(name=A["algo"]["name"] if same else None))
             self.case = {"A": A, "B": B, "schedule": ""}
             try:
                 self.sess["A"] = self.stack.enter_context(Session(A, record_partitions=False))
@@ -289,5 +294,5 @@ def run_shard(ctx):
     ctx.drive("repeat", gen.run_case(T_max=150 if quick else 600, laws=LAWS, poo_ok_only=True, gpo_ok_only=True, script_prob=0.0,
                                      T_min=5, n_range=(100, 300) if quick else (100, 1000)),
               check_case, ctx.budget(2400, 30000))
-    ctx.drive_machine("interleave", make_machine(ctx.col, "interleave"), ctx.budget(640, 12000), steps=20 if quick else 40)
+    ctx.drive_machine("interleave", make_machine(ctx.col, "interleave"), ctx.budget(1600, 16000), steps=20 if quick else 40)
     ctx.drive("process", process_cases(), check_case, ctx.budget(96, 960))
